@@ -11,6 +11,8 @@ C07-c  {c : hex_to_int(c) >= 0} = [0-9A-Fa-f] with values 0..15 (piecewise-affin
        interpretation over the whole char range).
 C07-d  zck_validate_lead returns read_lead's verdict and restores offset 0 on every
        non-failure exit.
+C07-g  no success exit of an option setter leaves a pin field freed or reset to its unset value: a pin in
+       force stays in force (setting another pin must not silently drop the digest pin).
 """
 from ..flow import M1, NEG, Z, P1, POS, POSITIVE, NONNEG, NEGATIVE, TOP, mask_str, Engine, Rule
 from ..ir import strip, strip_transparent, show, callee_name, const_value, walk, calls_in
@@ -116,6 +118,64 @@ class PinRule(SymRule):
         return ts
 
 
+class PinKeep(FactRule):
+    """Success exits of an option setter: no pin field was last written with its 'unset' value (NULL / negative
+    constant) or freed without being assigned a fresh value afterwards."""
+    name = 'R6.pin-keep'
+
+    def __init__(self, prog, fn):
+        FactRule.__init__(self, prog, fn)
+        self.success_exits = 0
+        self.events = 0
+
+    def on_call(self, ctx, call, ts):
+        if ctx.fn is self.fn and callee_name(call) == 'free' and len(call.a) > 1:
+            a = strip(call.a[1])
+            if a is not None and a.k == 'mem' and a.op in PINS:
+                self.events += 1
+                ts = ts | frozenset(['dropped:' + a.op])
+        return ts
+
+    def on_assign(self, ctx, lhs, rhs, op, value, ts):
+        if ctx.fn is not self.fn:
+            return ts
+        l = strip(lhs)
+        if l is None or l.k != 'mem' or l.op not in PINS or op != '=':
+            return ts
+        self.events += 1
+        cv = const_value(rhs) if rhs is not None else None
+        unset = cv is not None and ((l.op == 'prep_digest' and cv == 0) or (l.op != 'prep_digest' and cv < 0))
+        if unset:
+            return ts | frozenset(['dropped:' + l.op])
+        return ts - frozenset(['dropped:' + l.op])
+
+    def on_return(self, ctx, node, mask, ts):
+        if ctx.fn is self.fn and mask & (P1 | POS):
+            self.success_exits += 1
+            for p in PINS:
+                if 'dropped:' + p in ts:
+                    self.violate(ctx, 'pin-dropped', '%s() can return success after releasing or unsetting %s: a pin '
+                                 'the caller put in force earlier is silently dropped, and the next lead is accepted '
+                                 'without that comparison' % (self.fn.name, p), inst=p, node=node)
+        return ts
+
+
+def pin_persistence(ck, prog, config):
+    n = 0
+    for name in ('zck_set_ioption', 'zck_set_soption'):
+        fn = prog.need_func(name)
+        r = PinKeep(prog, fn)
+        run_rule(prog, fn, r)
+        ck.require(r.success_exits >= 1, '%s has no success exit' % name)
+        n += r.events
+        ck.ob('C07-g', 'R6.pin-keep', name, 'pins', not r.violations,
+              'no success exit of %s leaves a pin field freed or reset to its unset value (%d pin writes followed '
+              'over %d success exits)' % (name, r.events, r.success_exits) if not r.violations else r.violations[0].msg,
+              fn.file, r.violations[0].node.line if r.violations else fn.line,
+              path=r.violations[0].path if r.violations else None, config=config)
+    ck.min_instances('pin writes in the option setters', n, 3)
+
+
 class NegToPtr(errdisc.SiteRule):
     pass
 
@@ -177,6 +237,8 @@ def run(ctx):
         ck.ob('C07-e', 'R7.pin-owner', '*', 'owners', True,
               '%d write/free site(s) of the pin fields, all in %s' % (nw, ', '.join(sorted(OWNERS))), config=config)
         ck.min_instances('write/free sites of the pin fields', nw, 4)
+        # ---- g  a pin in force is never dropped by a successful setter call
+        pin_persistence(ck, prog, config)
         # ---- b
         so = prog.need_func('zck_set_soption')
 
@@ -354,16 +416,25 @@ def run(ctx):
 
 CLAIM = {
     'technique': 'fact typestate over all paths of read_lead (pin gates with linear forms), order facts in the option '
-                 'setter, piecewise-affine abstract interpretation of hex_to_int over the whole char range, pin-ownership inventory (who may write, free or hand over the pin fields)',
+                 'setter, piecewise-affine abstract interpretation of hex_to_int over the whole char range, pin-ownership inventory (who may write, free or hand over the pin fields), pin-persistence typestate over the option setters',
     'text': 'static analysis: decides C07-a..d - each success exit of read_lead passes, per pin, the unset edge or an '
             'equality edge against the stored value (memcmp over digest_size at the digest offset; header_length + '
             'lead length); the digest pin is only installed after type and length checks from a conversion that '
             'rejects every non-hex character; the accepted set of hex_to_int is computed exactly by abstract '
-            'interpretation and equals [0-9A-Fa-f] -> 0..15; zck_validate_lead propagates the verdict and rewinds. C07-e: only the option setters and the context life-cycle write, free or hand over the pins.',
+            'interpretation and equals [0-9A-Fa-f] -> 0..15; zck_validate_lead propagates the verdict and rewinds. C07-e: only the option setters and the context life-cycle write, free or hand over the pins. C07-g: no successful setter call drops a pin that is in force.',
     'note': 'trusted: clang 14 front end; the affine fragment (anything else is analysis-broken); char is signed 8 bit',
 }
 
 MUTANTS = [
+    {'id': 'm07g', 'desc': 'hash type setter drops the digest pin (seeded c07r4)', 'file': 'src/lib/zck.c',
+     'old': """        if(zck->prep_digest != NULL) {
+            set_error(zck, "For validation, you must set the header hash type "
+                           "*before* the header digest itself");
+            return false;
+        }""", 'new': """        if(zck->prep_digest != NULL && zck->prep_hash_type != value) {
+            free(zck->prep_digest);
+            zck->prep_digest = NULL;
+        }""", 'expect': 'R6.pin-keep zck_set_ioption'},
     {'id': 'm07o', 'desc': 'read_lead takes the pinned digest buffer over (seeded c07r3)', 'file': 'src/lib/header.c',
      'old': """    memcpy(zck->header_digest, header + length, zck->hash_type.digest_size);
     length += zck->hash_type.digest_size;""",
